@@ -130,6 +130,36 @@ def main(args):
             print("  setter event %d removed: %s" % (sidx + 1, "rejected at %s" % rej if rej is not None else "ACCEPTED"))
             ok &= rej is not None
 
+        print("2c. calls observed while the repository's own tests ran (wrapped methods): accepted / rejected when a logged result is altered")
+        ctx = check.Ctx("SELFTEST", "quick", 1, scratch)
+        ctx._h = {False: harness}      # (the harness built above)
+        res = check.Result("SELFTEST", "quick", 1)
+        ctx.repo_tests_path_trace(res, ["vfp", "vfk", "ksearch", "leaf", "upd", "set", "remove", "rename", "newmap"])
+        print("  query / update calls: %s" % ("accepted" if not res.mismatches else "REJECTED"))
+        ok &= not res.mismatches
+        trace = os.path.join(check.prepare_spec_dir(scratch), "trace_path.ndjson")
+        lines = open(trace).read().splitlines()
+        idx = next(i for i, l in enumerate(lines) if json.loads(l)["op"] == "upd" and json.loads(l)["c"] > 0)
+        ev = json.loads(lines[idx])
+        ev["c"] += 1
+        open(trace, "w").write("\n".join(lines[:idx] + [json.dumps(ev)] + lines[idx + 1:]) + "\n")
+        _, rej = check.validate_trace_only(scratch, "Trace_Path.tla", "Trace_Path.cfg", 300)
+        print("  count of the UpdateValuesForPath call at event %d altered: %s" % (idx + 1, "rejected at %s" % rej if rej is not None else "ACCEPTED"))
+        ok &= rej == idx + 1
+        res = check.Result("SELFTEST", "quick", 1)
+        ctx.repo_tests_enc_trace(res)
+        print("  Map.Xml calls: %s" % ("accepted" if not res.mismatches else "REJECTED"))
+        ok &= not res.mismatches
+        trace = os.path.join(check.prepare_spec_dir(scratch), "trace_xml.ndjson")
+        lines = open(trace).read().splitlines()
+        idx = next(i for i, l in enumerate(lines) if json.loads(l)["op"] == "encx" and len(json.loads(l)["x"]) > 20)
+        ev = json.loads(lines[idx])
+        ev["x"] = ev["x"].replace("</", "< /", 1)
+        open(trace, "w").write("\n".join(lines[:idx] + [json.dumps(ev)] + lines[idx + 1:]) + "\n")
+        _, rej = check.validate_trace_only(scratch, "Trace_Xml.tla", "Trace_Xml.cfg", 300)
+        print("  bytes of the Map.Xml call at event %d altered: %s" % (idx + 1, "rejected at %s" % rej if rej is not None else "ACCEPTED"))
+        ok &= rej == idx + 1
+
         print("3. replay reports an altered expectation")
         meta = tempfile.mkdtemp(prefix="meta_", dir=scratch)
         r = subprocess.run(["timeout", "300"] + check.tlc_cmd("MC_C07.tla", "MC_C07_quick.cfg", meta, 8), cwd=sd, stdout=subprocess.PIPE, stderr=subprocess.STDOUT, text=True)
